@@ -16,7 +16,7 @@ type c11 struct{}
 func (c11) ID() string    { return "C11" }
 func (c11) Level() string { return "exploration" }
 func (c11) Rule() string {
-	return "26 default-able facts (default network membership; implicit default network; <project>_<key> names of network/volume/secret/config; depends_on implied by links, network_mode/ipc/pid service: namespaces, volumes_from; build context; dockerfile; port protocol; port mode; secret target; depends_on required; env_file required; device count; pull_policy alias), each carried by its own service: every subset of <=3 facts left implicit and every subset of <=3 facts written explicitly (thorough: all 2^14 subsets of the first 14), delivered by main file / override / include; oracle: implicit model == all-explicit model. Plus, per fact, an explicit non-default value that must survive, an implied depends_on that must not replace a declared one, and the `default` network present iff used. distinct = distinct subsets x origins"
+	return "27 default-able facts (default network membership; implicit default network; <project>_<key> names of network/volume/secret/config; depends_on implied by links, network_mode/ipc/pid service: namespaces, volumes_from; build context; dockerfile; port protocol; port mode; secret target; depends_on required; depends_on short list; env_file required; device count; pull_policy alias), each carried by its own service: every subset of <=3 facts left implicit and every subset of <=3 facts written explicitly (thorough: all 2^14 subsets of the first 14), delivered by main file / override / include / extended base, and (main file, extended base) under a later layer that adds other entries to the same attributes; oracle: implicit model == all-explicit model delivered the same way. Plus, per fact, an explicit non-default value that must survive, an implied depends_on that must not replace a declared one, and the `default` network present iff used. distinct = distinct subsets x origins"
 }
 func (c11) Assumptions() []string {
 	return []string{"projects compared with go-cmp (EquateEmpty) over all model fields"}
@@ -29,6 +29,7 @@ type c11fact struct {
 	top      string // top-level fragment, implicit form
 	topExpl  string
 	nonDef   string // service body with an explicit non-default value ("" = not applicable)
+	refine   string // fragment a later layer adds to the service: touches the same attribute, but another entry of it
 	nonDefOK func(p *types.Project, svc string) string
 }
 
@@ -62,7 +63,7 @@ func c11facts() []c11fact {
 		{name: "config-external-false", svc: "    image: i\n", svcExpl: "    image: i\n", top: "configs:ecfg:{content: c}", topExpl: "configs:ecfg:{content: c, external: false, name: proj_ecfg}"},
 		{name: "volume-external-false-unnamed", svc: "    image: i\n", svcExpl: "    image: i\n", top: "volumes:evol2:{external: false}", topExpl: "volumes:evol2:{name: proj_evol2}"},
 		{name: "network-external-false-unnamed", svc: "    image: i\n", svcExpl: "    image: i\n", top: "networks:enet2:{external: false}", topExpl: "networks:enet2:{name: proj_enet2}"},
-		{name: "depends-on-from-links", svc: "    image: i\n    links: [t]\n", svcExpl: "    image: i\n    links: [t]\n    depends_on:\n      t: {" + c11dep + "}\n",
+		{name: "depends-on-from-links", refine: "    depends_on:\n      u: {condition: service_healthy}\n", svc: "    image: i\n    links: [t]\n", svcExpl: "    image: i\n    links: [t]\n    depends_on:\n      t: {" + c11dep + "}\n",
 			nonDef: "    image: i\n    links: [\"t:alias\"]\n" + declared, nonDefOK: depCheck},
 		{name: "depends-on-from-network-mode", svc: "    image: i\n    network_mode: \"service:t\"\n", svcExpl: "    image: i\n    network_mode: \"service:t\"\n    depends_on:\n      t: {" + c11dep + "}\n",
 			nonDef: "    image: i\n    network_mode: \"service:t\"\n" + declared, nonDefOK: depCheck},
@@ -92,7 +93,7 @@ func c11facts() []c11fact {
 				}
 				return ""
 			}},
-		{name: "port-protocol", svc: "    image: i\n    ports: [{target: 80, mode: ingress}]\n", svcExpl: "    image: i\n    ports: [{target: 80, mode: ingress, protocol: tcp}]\n",
+		{name: "port-protocol", refine: "    ports: [{target: 90, mode: host, protocol: udp}]\n", svc: "    image: i\n    ports: [{target: 80, mode: ingress}]\n", svcExpl: "    image: i\n    ports: [{target: 80, mode: ingress, protocol: tcp}]\n",
 			nonDef: "    image: i\n    ports: [{target: 80, mode: ingress, protocol: udp}]\n", nonDefOK: func(p *types.Project, s string) string {
 				if p.Services[s].Ports[0].Protocol != "udp" {
 					return "explicit port protocol overwritten"
@@ -106,26 +107,34 @@ func c11facts() []c11fact {
 				}
 				return ""
 			}},
-		{name: "secret-target", svc: "    image: i\n    secrets: [{source: sec}]\n", svcExpl: "    image: i\n    secrets: [{source: sec, target: /run/secrets/sec}]\n",
+		{name: "secret-target", refine: "    secrets: [{source: sec, target: /other}]\n", svc: "    image: i\n    secrets: [{source: sec}]\n", svcExpl: "    image: i\n    secrets: [{source: sec, target: /run/secrets/sec}]\n",
 			nonDef: "    image: i\n    secrets: [{source: sec, target: /elsewhere}]\n", nonDefOK: func(p *types.Project, s string) string {
 				if p.Services[s].Secrets[0].Target != "/elsewhere" {
 					return "explicit secret target overwritten"
 				}
 				return ""
 			}},
-		{name: "depends-on-required", svc: "    image: i\n    depends_on:\n      t: {condition: service_started}\n", svcExpl: "    image: i\n    depends_on:\n      t: {condition: service_started, required: true}\n",
+		{name: "depends-on-short-list", svc: "    image: i\n    depends_on: [t, u]\n",
+			svcExpl: "    image: i\n    depends_on:\n      t: {condition: service_started, required: true}\n      u: {condition: service_started, required: true}\n",
+			refine:  "    depends_on:\n      t: {condition: service_healthy}\n"},
+		{name: "depends-on-required", refine: "    depends_on:\n      u: {condition: service_healthy}\n", svc: "    image: i\n    depends_on:\n      t: {condition: service_started}\n", svcExpl: "    image: i\n    depends_on:\n      t: {condition: service_started, required: true}\n",
 			nonDef: "    image: i\n    depends_on:\n      t: {condition: service_started, required: false}\n", nonDefOK: func(p *types.Project, s string) string {
 				if p.Services[s].DependsOn["t"].Required {
 					return "explicit required: false overwritten"
 				}
 				return ""
 			}},
-		{name: "env-file-required", svc: "    image: i\n    env_file: [{path: ./e.env}]\n", svcExpl: "    image: i\n    env_file: [{path: ./e.env, required: true}]\n",
+		{name: "env-file-required", refine: "    env_file: [{path: ./f.env, required: false}]\n", svc: "    image: i\n    env_file: [{path: ./e.env}]\n", svcExpl: "    image: i\n    env_file: [{path: ./e.env, required: true}]\n",
 			nonDef: "    image: i\n    env_file: [{path: ./missing.env, required: false}]\n", nonDefOK: func(p *types.Project, s string) string {
-				if len(p.Services[s].EnvFiles) != 1 || p.Services[s].EnvFiles[0].Required {
-					return "explicit env_file required: false overwritten"
+				for _, e := range p.Services[s].EnvFiles {
+					if strings.HasSuffix(e.Path, "missing.env") {
+						if e.Required {
+							return "explicit env_file required: false overwritten"
+						}
+						return ""
+					}
 				}
-				return ""
+				return "declared env_file entry lost"
 			}},
 		{name: "device-count", svc: "    image: i\n    deploy: {resources: {reservations: {devices: [{capabilities: [gpu]}]}}}\n", svcExpl: "    image: i\n    deploy: {resources: {reservations: {devices: [{capabilities: [gpu], count: all}]}}}\n",
 			nonDef: "    image: i\n    deploy: {resources: {reservations: {devices: [{capabilities: [gpu], count: 2}]}}}\n", nonDefOK: func(p *types.Project, s string) string {
@@ -149,7 +158,7 @@ func c11doc(facts []c11fact, implicit uint32, nonDef int) string {
 	tops := map[string][]string{}
 	order := []string{"networks", "volumes", "secrets", "configs"}
 	var sb strings.Builder
-	sb.WriteString("services:\n  t:\n    image: t\n")
+	sb.WriteString("services:\n  t:\n    image: t\n  u:\n    image: u\n")
 	for i, f := range facts {
 		body := f.svcExpl
 		top := f.topExpl
@@ -177,9 +186,37 @@ func c11doc(facts []c11fact, implicit uint32, nonDef int) string {
 	return sb.String()
 }
 
-func c11scn(doc, origin string) *Scn {
+// c11tops is the top-level part of a document (everything after the services).
+func c11tops(doc string) string {
+	for _, k := range []string{"\nnetworks:\n", "\nvolumes:\n", "\nsecrets:\n", "\nconfigs:\n"} {
+		if i := strings.Index(doc, k); i >= 0 {
+			return doc[i+1:]
+		}
+	}
+	return ""
+}
+
+func c11scn(facts []c11fact, doc, origin string) *Scn {
 	files := map[string]string{"s": "secret", "e.env": "E=1\n"}
 	main := []string{"compose.yaml"}
+	refineLayer := func(children bool) string {
+		var sb strings.Builder
+		sb.WriteString("services:\n")
+		if children {
+			sb.WriteString("  t:\n    image: t\n  u:\n    image: u\n")
+		}
+		for i, f := range facts {
+			if children {
+				fmt.Fprintf(&sb, "  f%02d:\n    extends: {file: ./base.yaml, service: f%02d}\n", i, i)
+			} else if f.refine != "" {
+				fmt.Fprintf(&sb, "  f%02d:\n", i)
+			}
+			if origin != "extends" {
+				sb.WriteString(f.refine)
+			}
+		}
+		return sb.String()
+	}
 	switch origin {
 	case "main":
 		files["compose.yaml"] = doc
@@ -190,6 +227,15 @@ func c11scn(doc, origin string) *Scn {
 	case "include":
 		files["compose.yaml"] = "include:\n  - ./inc.yaml\nservices:\n  extra:\n    image: x\n    network_mode: none\n"
 		files["inc.yaml"] = doc
+	case "main+refine":
+		// a later file touches the same attributes, but other entries of them
+		files["compose.yaml"] = doc
+		files["refine.yaml"] = refineLayer(false)
+		main = []string{"compose.yaml", "refine.yaml"}
+	case "extends", "extends+refine":
+		// every service arrives from an extended base; with refine the extending service adds the other entries
+		files["base.yaml"] = doc
+		files["compose.yaml"] = refineLayer(true) + c11tops(doc)
 	}
 	return &Scn{Files: files, Main: main}
 }
@@ -224,14 +270,14 @@ func (c11) Run(c *core.Ctx) {
 			add(m)
 		}
 	}
-	for _, origin := range []string{"main", "override", "include"} {
+	for _, origin := range []string{"main", "override", "include", "main+refine", "extends", "extends+refine"} {
 		origin := origin
 		var ref *types.Project
 		getRef := func() (*types.Project, error) {
 			if ref != nil {
 				return ref, nil
 			}
-			s := c11scn(c11doc(facts, 0, -1), origin)
+			s := c11scn(facts, c11doc(facts, 0, -1), origin)
 			root := s.Materialise()
 			p, err := s.LoadAt(root)
 			if err == nil {
@@ -255,7 +301,7 @@ func (c11) Run(c *core.Ctx) {
 					return core.Outcome{Class: "ref", Viol: &core.Violation{Key: "explicit-model-rejected:" + origin, Msg: "the all-explicit model does not load: " + err.Error()}}
 				}
 				doc := c11doc(facts, m, -1)
-				s := c11scn(doc, origin)
+				s := c11scn(facts, doc, origin)
 				root := s.Materialise()
 				p, err := s.LoadAt(root)
 				var names []string
@@ -299,7 +345,7 @@ func (c11) Run(c *core.Ctx) {
 			id := fmt.Sprintf("nondefault/%s/%s", origin, f.name)
 			c.Do(id, func() core.Outcome {
 				doc := c11doc(facts, all, i)
-				s := c11scn(doc, origin)
+				s := c11scn(facts, doc, origin)
 				root := s.Materialise()
 				p, err := s.LoadAt(root)
 				sample := map[string]any{"fact": f.name, "origin": origin, "doc": doc}
